@@ -38,10 +38,10 @@ PROP = {'rule': 'rapid state machine, one unit per combination of EnableRuntimeQ
  'units': [{'name': 'plugin',
             'pkg': 'pkg/scheduler/plugins/elasticquota',
             'files': ['C03/c03_admission_test.go'],
-            'tests': [{'run': 'TestVerifC03RuntimeOnParentOff', 'quick': 2000, 'thorough': 2500, 'steps': 60},
-                      {'run': 'TestVerifC03RuntimeOnParentOn', 'quick': 2000, 'thorough': 2500, 'steps': 60},
-                      {'run': 'TestVerifC03RuntimeOffParentOff', 'quick': 2000, 'thorough': 2500, 'steps': 60},
-                      {'run': 'TestVerifC03RuntimeOffParentOn', 'quick': 2000, 'thorough': 2500, 'steps': 60}]}],
+            'tests': [{'run': 'TestVerifC03RuntimeOnParentOff', 'quick': 2000, 'thorough': 2500, 'steps': 70},
+                      {'run': 'TestVerifC03RuntimeOnParentOn', 'quick': 2000, 'thorough': 2500, 'steps': 70},
+                      {'run': 'TestVerifC03RuntimeOffParentOff', 'quick': 2000, 'thorough': 2500, 'steps': 70},
+                      {'run': 'TestVerifC03RuntimeOffParentOn', 'quick': 2000, 'thorough': 2500, 'steps': 70}]}],
  'manifest': {'technique': 'property-based testing (rapid): model-based state machine over the closed loop pod add -> PreFilter -> Reserve -> '
                            'bind/Unreserve -> delete with quota and capacity changes, per-attempt decision oracle + history invariant',
               'text': 'Generated-history search over the real ElasticQuota plugin for each of the four runtime-quota x check-parent settings. A '
